@@ -187,7 +187,9 @@ func dependsOnRecycled(v ssa.Value) bool {
 }
 
 // c05Aliases: fields whose reset value is a reference into WAF state (slices/maps copied by header).
-func c05Aliases(c *an.Ctx, nt *ssa.Function, txS *types.Struct) {
+func c05Aliases(c *an.Ctx, nt *ssa.Function, txS *types.Struct) { wafAliases(c, "R1", nt, txS) }
+
+func wafAliases(c *an.Ctx, R string, nt *ssa.Function, txS *types.Struct) {
 	for i := 0; i < txS.NumFields(); i++ {
 		f := txS.Field(i)
 		switch f.Type().Underlying().(type) {
@@ -214,12 +216,12 @@ func c05Aliases(c *an.Ctx, nt *ssa.Function, txS *types.Struct) {
 				}
 				n++
 				if w := writesThrough(c, u, map[ssa.Value]bool{}, 0); w != "" {
-					c.Bad("R1", fmt.Sprintf("shared %s not written through in %s", f.Name(), an.RelName(fn)), u.Pos(),
+					c.Bad(R, fmt.Sprintf("shared %s not written through in %s", f.Name(), an.RelName(fn)), u.Pos(),
 						"Transaction."+f.Name()+" shares its backing storage with the WAF (newTransaction copies the header) and is written in place: "+w+"; the change leaks into every later transaction")
 				}
 			})
 		}
-		c.Ok("R1", "Transaction."+f.Name()+" aliases WAF storage: users enumerated", nt.Pos(), fmt.Sprintf("%d loads examined; none writes through the shared backing array", n))
+		c.Ok(R, "Transaction."+f.Name()+" aliases WAF storage: users enumerated", nt.Pos(), fmt.Sprintf("%d loads examined; none writes through the shared backing array", n))
 	}
 }
 
